@@ -1,6 +1,7 @@
 """C20  K-means assigns to the nearest centroid; cluster-derived GMM initialisation is exact."""
 from fractions import Fraction
 
+import dask
 import numpy as np
 
 from .. import coqio as cq
@@ -60,6 +61,37 @@ def run(chk):
             chk.count(1, key=("dask", len(parts)))
             if not (np.allclose(dd, ex, rtol=1e-9, atol=1e-300) and np.array_equal(dl, lab)):
                 chk.fail("Dask chunks %s change transform/predict" % (parts,), dict(ctx, chunks=list(parts)))
+        # several lazy results evaluated in ONE graph (two arrays through the same machine, two machines on the same array): each is its own
+        if N >= 4 and i % 3 == 1:
+            h = N // 2
+            dA, dB = da.from_array(X[:h], chunks=(h, D)), da.from_array(X[h:], chunks=(N - h, D))
+            la, lb, ta, tb = dask.compute(km.predict(dA), km.predict(dB), km.transform(dA), km.transform(dB))
+            km2 = KMeansMachine(n_clusters=K)
+            km2.centroids_ = np.array(cents)[::-1].copy()
+            t1, t2 = dask.compute(km.transform(dX), km2.transform(dX))
+            chk.count(1, key=("dask-one-graph",))
+            if not (np.array_equal(np.asarray(la), lab[:h]) and np.array_equal(np.asarray(lb), lab[h:])
+                    and np.allclose(np.asarray(ta), ex[:, :h], rtol=1e-9, atol=1e-300) and np.allclose(np.asarray(tb), ex[:, h:], rtol=1e-9, atol=1e-300)
+                    and np.allclose(np.asarray(t1), ex, rtol=1e-9, atol=1e-300) and np.allclose(np.asarray(t2), ex[::-1], rtol=1e-9, atol=1e-300)):
+                chk.fail("lazy transform/predict results computed together in one Dask graph differ from the same results computed one by one", dict(ctx, split=h))
+        # a Dask array whose row-chunk sizes are unknown (lazy boolean filtering): same distances, labels, cluster variances and weights as in memory
+        if N >= 4 and i % 3 == 2:
+            keepm = np.ones(N + 2, dtype=bool)
+            keepm[[1, N]] = False
+            Xpad = np.vstack([X[:1], X[:1] + 1.0, X[1:N - 1], X[-1:] - 1.0, X[-1:]])       # rows 1 and N are dropped again by the mask
+            dU = da.from_array(Xpad, chunks=((N + 2) // 2 + 1, D))[da.from_array(keepm, chunks=(N + 2) // 2 + 1)]
+            try:
+                # (transform/predict refuse unknown chunk sizes loudly - Dask cannot stack arrays of unknown shape - so only the
+                #  statistics entry point, which accepts them, is compared)
+                vu, wu = km.get_variances_and_weights_for_each_cluster(dU)
+                vu, wu = np.asarray(vu), np.asarray(wu)
+                v0, w0 = km.get_variances_and_weights_for_each_cluster(X)
+                chk.count(1, key=("dask-unknown-chunk-sizes",))
+                if not (np.allclose(wu, np.asarray(w0), rtol=1e-12, atol=0)
+                        and np.allclose(vu, np.asarray(v0), rtol=1e-9, atol=64 * eps * max(1.0, float(np.abs(X).max())) ** 2, equal_nan=True)):
+                    chk.fail("on a Dask array with unknown row-chunk sizes the cluster variances / weights differ from the in-memory ones (weights %s)" % wu.tolist(), ctx)
+            except Exception as e:
+                chk.fail("a Dask array with unknown row-chunk sizes raises %r" % (e,), ctx)
         # ---- per-cluster variances and weights, every chunking
         var, w = km.get_variances_and_weights_for_each_cluster(X)
         var, w = np.asarray(var), np.asarray(w)
